@@ -183,7 +183,12 @@ def rule_rxn_roles(ck, repo, R):
     ck.decide(all(x in s for x in ('M  V30 BEGIN REACTANT', 'M  V30 END REACTANT', 'M  V30 BEGIN PRODUCT', 'M  V30 END PRODUCT', 'M  V30 BEGIN AGENT', 'M  V30 END AGENT')), R, 'v3000:writer-blocks', None,
               'V3000 reaction writer block names changed', file=m.relpath)
     ck.decide("M  V30 COUNTS {len(data.reactants)} {len(data.products)}" in s, R, 'v3000:writer-counts', None, 'V3000 COUNTS line no longer reactants, products[, agents]', file=m.relpath)
-    ck.decide(s.count("chain(tmp['reactants'], tmp['reagents'], tmp['products'])") == 2 or s.count("chain(tmp['reactants'], tmp['reagents'], tmp['products'])") >= 1, R, 'postprocess-order', None,
+    chains = []
+    for n in ast.walk(m.tree):  # any name for the parsed record
+        if isinstance(n, ast.Call) and src(n.func) == 'chain' and len(n.args) == 3 and all(isinstance(a, ast.Subscript) and isinstance(a.slice, ast.Constant) for a in n.args) \
+                and len({src(a.value) for a in n.args}) == 1:
+            chains.append([a.slice.value for a in n.args])
+    ck.decide(chains and all(c == ['reactants', 'reagents', 'products'] for c in chains), R, 'postprocess-order', chains,
               'reaction molecules are no longer post-processed in molecules() order (reactants, reagents, products)', file=m.relpath)
 
 
